@@ -38,6 +38,8 @@ cc._PATCH_REGISTRATIONS[format] = _format
 # ---- E4: isinstance on non-symbolic objects is CPython's isinstance --------------------------
 _orig_isinstance = cc._PATCH_REGISTRATIONS[isinstance]
 _real_isinstance = builtins.isinstance
+import abc as _abc
+_STD_META = (type, _abc.ABCMeta)
 
 
 def _isinstance(obj, types):
@@ -51,6 +53,13 @@ def _isinstance(obj, types):
                     break
     if symbolic:
         return _orig_isinstance(obj, types)
+    with NoTracing():
+        # classes with a standard metaclass: CPython's answer is exact and needs no tracing (tracing the ABC machinery
+        # re-enters the engine's contract enforcement and recurses); custom metaclasses (glom's _ObjStyleKeysMeta, the
+        # harness' virtual types whose hooks return symbolic booleans) must be traced so that bool() of the result forks
+        std = type(types) in _STD_META or (type(types) is tuple and all(type(t) in _STD_META for t in types))
+        if std:
+            return _real_isinstance(obj, types)
     return _real_isinstance(obj, types)
 
 
@@ -64,27 +73,39 @@ cc._PATCH_REGISTRATIONS[isinstance] = _isinstance
 # hashing, which is the documented (D) treatment of hashed values.
 _orig_dict = cc._PATCH_REGISTRATIONS[dict]
 _real_dict = builtins.dict
+import collections as _collections
+import collections.abc  # noqa: E402,F401
 
 
 def _dict(*a, **kw):
+    if len(a) > 1:
+        return _orig_dict(*a, **kw)
+    if not a:
+        return _real_dict(**kw)
+    arg = a[0]
     with NoTracing():
-        ok = len(a) <= 1
-        if ok and a:
-            arg = a[0]
-            if _real_isinstance(arg, CrossHairValue):
+        symbolic = _real_isinstance(arg, CrossHairValue) or type(arg).__module__.startswith('crosshair')
+        simple = type(arg) in (_real_dict, _collections.OrderedDict)
+    if symbolic:
+        return _orig_dict(arg, **kw)
+    if simple:
+        return _real_dict(arg, **kw)         # keys of a real dict are already concrete
+    # any other concrete mapping / iterable of pairs (ChainMap, ItemsView -- Mapping.__eq__ does dict(self.items()) on glom
+    # scopes, which refer to each other through UP / ROOT; CPython's dict comparison cuts such cycles by identity, the
+    # engine's ShellMutableMap comparison does not): materialise once, use a real dict unless a key is symbolic
+    if _real_isinstance(arg, _collections.abc.Mapping):
+        pairs = [(k, arg[k]) for k in arg]
+    else:
+        pairs = list(arg)
+    with NoTracing():
+        ok = True
+        for pair in pairs:
+            if not (type(pair) in (list, tuple) and len(pair) == 2) or _real_isinstance(pair[0], CrossHairValue):
                 ok = False
-            elif type(arg) in (_real_dict, __import__('collections').OrderedDict):
-                ok = True      # keys of a real dict are already concrete
-            elif type(arg) in (list, tuple):
-                for pair in arg:
-                    if not (type(pair) in (list, tuple) and len(pair) == 2) or _real_isinstance(pair[0], CrossHairValue):
-                        ok = False
-                        break
-            else:
-                ok = False
-        if ok:
-            return _real_dict(*a, **kw)
-    return _orig_dict(*a, **kw)
+                break
+    if ok:
+        return _real_dict(pairs, **kw)
+    return _orig_dict(pairs, **kw)
 
 
 cc._PATCH_REGISTRATIONS[dict] = _dict
